@@ -248,6 +248,11 @@ fn json_stream(seed: u64, n: usize, cases: &mut impl Write, outs: &mut impl Writ
         let line = match &got { Ok(e) => { let t = &e.tags[0]; let kind = fields.get("kind").map(|s| s.as_str()).unwrap_or("none");
                 let tk = match t { Tag::Path { .. } => "path", Tag::FileEventKind(_) => "fs", Tag::Source(_) => "source", Tag::Keyboard(_) => "keyboard", Tag::Process(_) => "process", Tag::Signal(_) => "signal", Tag::ProcessCompletion(_) => "completion", _ => "none" };
                 if tk != "none" && tk != kind { oracle = format!("object of kind {kind} parsed as a {tk} tag: {:?}", obj); }
+                // … nor for another disposition: a completion that parses says what the object's `disposition` says
+                if let Tag::ProcessCompletion(Some(end)) = t {
+                    let d = match end { ProcessEnd::Success => "success", ProcessEnd::ExitError(_) => "error", ProcessEnd::ExitSignal(_) => "signal", ProcessEnd::ExitStop(_) => "stop", ProcessEnd::Exception(_) => "exception", ProcessEnd::Continued => "continued" };
+                    if fields.get("disposition").map(|x| x.as_str()) != Some(d) { oracle = format!("completion object with disposition {:?} parsed as a `{d}` completion: {:?}", fields.get("disposition"), obj); }
+                }
                 tag_enc(t) }
             Err(err) => { oracle = format!("object {:?} failed to parse: {err}", obj); "error".into() } };
         (format!("DEC\t{}", enc.join(";")), format!("{line}{}", if oracle.is_empty() { String::new() } else { format!("\t!{oracle}") }))
